@@ -143,6 +143,15 @@ def check(repo, col, tier):
     _common(repo, col)
     from . import c12
     c12.cell_offsets_definition(repo, col, "R-C20-roles")
+    # the per-cell compartment offsets that sparse_connect looks the presynaptic site up with are taken from per-cell VIEWS
+    # (their cumsum_ncomp[-1]): a view's cumulative counts must be those of its own branches (shared with C11)
+    from . import c11
+    col.rule("R-C20-structure", "per-cell views carry the compartment counts of their own branches", 2)
+    c11.view_structure(repo, col, "R-C20-structure")
+    # populations given as named groups: the matrix rows / columns are matched with the cells of the group in ASCENDING order,
+    # one entry per cell -- a group extended by several add_to_group calls must stay sorted and free of duplicates
+    col.rule("R-C20-groups", "groups hold sorted, unique row labels", 1)
+    c11.group_normal_form(repo, col, "R-C20-groups")
 
 
 def _append_call(ex: Expander):
